@@ -7,6 +7,7 @@ import GdcVerif.Lemmas.GolombCode
 import GdcVerif.Lemmas.GolombExact
 import GdcVerif.Lemmas.JpegFrames
 import GdcVerif.Lemmas.JpegLsScanStep
+import GdcVerif.Lemmas.JpegLsLockstep3
 import GdcVerif.Lemmas.JpegLsRunInt
 import GdcVerif.Lemmas.JpegLsCtx
 import GdcVerif.Lemmas.JpegLsRunCtx
@@ -265,6 +266,34 @@ theorem regular_sample_roundtrip (P : Nat) (N : Int) (h : JpegLsNear.Admissible 
 
 example : (JpegLsScan.encRegular (JpegLsNear.traits 8 0) #[NewContext 256, NewContext 256] 1 10 20 10 200).toOption.map
     (fun r => (r.1, r.2.2)) = some ([(1, 24), (150, 8)], 200) := by decide
+
+/-- (11d) WHOLE IMAGES, bit level.  `JpegLsScanL` is the list-shaped twin of the scan model (tied to the
+    real `lossless.Encode/Decode` and `nearlossless.Encode/Decode` by `jls-scanL-enc/dec`): encoder and
+    decoder share one state (context table, run contexts, RUNindex, reconstructed previous line and
+    reconstructed part of the current line, edge register); one step = one regular pixel or one run
+    segment.  For every precision P in 2..16, every width ≥ 0 and height, 1 component (ILV 0) or several
+    (ILV 2), and every image whose samples are below 2^P: the scan decoder applied to the bits of all
+    `WriteBits` calls of the scan encoder (followed by anything) returns exactly the source image and
+    leaves what follows.  Lock-step (`Lockstep.lockstep_var`) over the per-step theorems (6b)–(11c). -/
+theorem jpegls_lossless_roundtrip (P : Nat) (hP : 2 ≤ P ∧ P ≤ 16) (comps : Nat) (hc : 1 ≤ comps) (w : Nat)
+    (lines : List (List JpegLsScanL.Pixel))
+    (hl : ∀ l ∈ lines, JpegLsScanL.LineOk comps ((2 : Int) ^ P - 1) w l) :
+    ∃ ws, (JpegLsScanL.encodeImage (JpegLsNear.traits P 0) w comps lines).toOption.map (·.1) = some ws ∧
+      ∀ rest, JpegLsScanL.decodeImage (JpegLsNear.traits P 0) w lines.length comps (Golomb.writesBits ws ++ rest)
+        = .ok (lines, rest) := by
+  have hadm : JpegLsNear.Admissible P 0 := ⟨hP, by omega, by omega, by
+    have : (0 : Int) < 2 ^ P := Int.pow_pos (by decide)
+    omega⟩
+  obtain ⟨ws, recs, he, hcl, _, hd⟩ := JpegLsScanL.image_roundtrip P 0 hadm comps hc w lines hl
+  have heq := JpegLsScanL.image_close_zero_eq hcl
+  subst heq
+  exact ⟨ws, by rw [he]; rfl, hd⟩
+
+example : JpegLsScanL.LineOk 1 ((2 : Int) ^ 12 - 1) 4 [[4095], [0], [4095], [0]] := by
+  refine ⟨rfl, ?_⟩
+  intro p hp
+  simp only [List.mem_cons, List.mem_singleton, List.not_mem_nil, or_false] at hp
+  rcases hp with rfl | rfl | rfl | rfl <;> exact ⟨rfl, by intro v hv; simp at hv; subst hv; unfold JpegLsScanL.SampOk; decide⟩
 
 /-- (12) what an unreduced error of the finding does to the escape code: mapped value 8190 at
     qbpp = 12 is written as (8190−1) mod 4096 and read back as 4094 — model-level replay of the
